@@ -91,6 +91,11 @@ def mk_gamma(c, a, b):
         return a
     if is_const(c):
         return a if c[2] else b
+    if c[0] == "gamma":
+        # a conditional used as a condition: gamma(gamma(c1, x, y), a, b) = gamma(c1, gamma(x, a, b), gamma(y, a, b))
+        return mk_gamma(c[1], mk_gamma(c[2], a, b), mk_gamma(c[3], a, b))
+    if c[0] == "and":
+        return mk_gamma(c[1], mk_gamma(c[2], a, b), b)
     at, p = lit(c)
     if not p:
         return ("gamma", at, b, a)
